@@ -57,7 +57,7 @@ def shape_sweep(first_id, seed):
     out = []
     for k in range(0, len(steps), 24):
         out.append({'id': first_id + len(out), 'cfg': {'seed': seed},
-                    'steps': steps[k:k + 24] + [{'a': 'PublishRaw', 'i': CANON, 'pbOK': True, 'id': 1, 'shape': 'plain'},
+                    'steps': steps[k:k + 24] + [{'a': 'PublishRaw', 'i': CANON, 'pbOK': True, 'id': 1, 'shape': 'hdrReserved'},
                                                 {'a': 'ReadBack'}]})
     return out
 
@@ -269,7 +269,7 @@ def run(rep, tier, seed, replay):
         gocfg = {'lens': lens, 'hls': hls, 'fills': T['fills'], 'seed': seed, 'rt': T['rt'], 'maxN': T['maxN']}
         n1, nt1, s1 = run_table(rep, d, 'server/protocol', '^TestVerifC14Table$', gocfg, T['trace'], stats)
         # 3. the table on natsToProtoMessage
-        gocfg2 = dict(gocfg, fills=max(2, T['fills']))
+        gocfg2 = dict(gocfg, fills=max(3, T['fills']))      # one filling per payload shape: plain / hdrNoValue / hdrReserved
         n2, nt2, s2 = run_table(rep, d, 'server', '^TestVerifC14Nats$', gocfg2, T['trace'], stats)
         # 4. publish sequences on a live server
         sims = core.tlc_simulate('MC_Envelope.tla', T['sim'], T['sims'], T['depth'], seed)
@@ -279,7 +279,7 @@ def run(rep, tier, seed, replay):
             for st in b[1:]:
                 a = dict(st['last'])
                 if a['a'] == 'PublishRaw' and a['pbOK']:
-                    a['shape'] = rng.choice(['plain', 'plain', 'hdrNoValue'])
+                    a['shape'] = rng.choice(['plain', 'hdrNoValue', 'hdrReserved'])
                 if a['a'] == 'Internal' and a['h'] == 'propagate' and a['pbOK']:
                     a['shape'] = rng.randrange(NUM_SHAPES)   # the simulation config draws 0..3; all request shapes are used
                 steps.append(a)
